@@ -85,6 +85,8 @@ package dns
 //@   exit cover: ret0 == nil ==> h0.Class == rr.Hdr.Class && h0.Rrtype == rr.TypeCovered
 //@   assert at "if k.Protocol != 3 {" signer: callres("equal") && callarg("equal", 0) == signerName && callarg("equal", 1) == k.Hdr.Name && signerName == callres("CanonicalName")
 //@   assert at "sigwire := new(rrsigWireFmt)" rrsetchecks: uint8(callres("CountLabel")) >= rr.Labels && callres("equal") && callarg("equal", 0) == h0.Name && callarg("equal", 1) == rr.Hdr.Name && callres("HasSuffix") && callarg("HasSuffix", 1) == signerName
+// RFC 6605 4: an ECDSA signature is r | s, each of the curve's octet length; a signature of another length is not one
+//@   assert at "r := new(big.Int).SetBytes(sigbuf[:len(sigbuf)/2])" siglen: (rr.Algorithm == 13 ==> len(sigbuf) == 64) && (rr.Algorithm == 14 ==> len(sigbuf) == 96)
 //@   assert at "n, err := packSigWire(sigwire, signeddata)" sigvars: sigwire.TypeCovered == rr.TypeCovered && sigwire.Algorithm == rr.Algorithm && sigwire.Labels == rr.Labels && sigwire.OrigTtl == rr.OrigTtl && sigwire.Expiration == rr.Expiration && sigwire.Inception == rr.Inception && sigwire.KeyTag == rr.KeyTag
 
 //@ func (*RRSIG).signAsIs [C10]
